@@ -74,8 +74,14 @@ def build(shape_key, edges, kg, spelling, pin, shared, mode, L=60):
     deps, precs = {}, {}
     for x, y in edges:
         kind, gap = kg
-        if spelling == "prec" and kind == "end" and not gap:
-            precs.setdefault(y, []).append(ref(y, x) if False else x)  # absolute ref from the predecessor's side
+        if spelling == "prec":
+            # absolute ref from the predecessor's side; gap / onstart are options of the precedes statement
+            d = {"ref": x}
+            if gap:
+                d["gap"] = gap
+            if kind == "start":
+                d["onstart"] = True
+            precs.setdefault(y, []).append(d if (gap or kind == "start") else x)
         else:
             d = {"ref": ref(x, y)}
             if gap:
@@ -134,7 +140,7 @@ def universe(tier):
                 if not edges and kg != KG_Q[0]:
                     continue
                 for spelling in ("rel", "abs", "prec"):
-                    if spelling == "prec" and (kg[0] != "end" or kg[1]):
+                    if spelling == "prec" and kg[0] != "end" and tier == "quick":
                         continue
                     if not edges and spelling != "rel":
                         continue
